@@ -48,3 +48,17 @@ Definition cpc_frame (s : cpc) (seed_hash kxp_bits hip_bits : N) (c : compressed
      (if has_window then le_bytes 4 (N.of_nat (length ww)) else []) ++
      (if has_hip && negb (has_table && has_window) then write_hip s kxp_bits hip_bits else []) ++
      flat_map (le_bytes 4) ww ++ flat_map (le_bytes 4) tw).
+
+(* CpcSketch::max_serialized_bytes: an empirical table (99.9th percentile of measured sizes) for lg_k <= 19,
+   the factor 0.6 beyond (`(0.6 * k as f64) as usize`), plus the largest preamble; panics outside
+   MIN_LG_K..=MAX_LG_K *)
+From DS Require Import Base.FloatBits.
+From Coq Require Import Floats.
+Definition max_serialized_bytes (lgk : N) : outcome N :=
+  if negb ((zN GenCpc.MIN_LG_K <=? lgk)%N && (lgk <=? zN GenCpc.MAX_LG_K)%N) then Stuck
+  else if (lgk <=? zN GenCpc.EMPIRICAL_SIZE_MAX_LGK)%N
+  then Ok (zN (nth (N.to_nat (lgk - zN GenCpc.MIN_LG_K)) GenCpc.EMPIRICAL_MAX_SIZE_BYTES 0%Z)
+           + zN GenCpc.MAX_PREAMBLE_SIZE_BYTES)%N
+  else Ok (zN (Z_of_float_trunc_sat 0 18446744073709551615
+                 (PrimFloat.mul (float_of_bits GenCpc.EMPIRICAL_MAX_SIZE_FACTOR_bits) (k_as_f64 lgk)))
+           + zN GenCpc.MAX_PREAMBLE_SIZE_BYTES)%N.
